@@ -110,7 +110,7 @@ Definition dev_poll (e : env) (d : dev) (draws : list Z) : dev * option irq * li
   | DScript l =>
       match l with
       | [] => (d, None, draws)
-      | x :: r => (DScript r, x, draws)
+      | x :: r => (DScript r, match x with Some (IVec v p) => Some (IVec v (clamp7 p)) | y => y end, draws)
       end
   end.
 
@@ -134,8 +134,8 @@ Fixpoint poll_all (e : env) (ds : list dev) (draws : list Z) (best : option irq)
 
 (* port table: the keyboard and display ports are fixed; every other I/O port is unowned *)
 Definition port_dev (addr : Z) : Z :=
-  if (addr =? KBSR) || (addr =? KBDR) then sim_device_NS.KB_DEV
-  else if (addr =? DSR) || (addr =? DDR) then sim_device_NS.DS_DEV else 0.
+  if (addr =? KBSR) || (addr =? KBDR) then sim_device.KB_DEV
+  else if (addr =? DSR) || (addr =? DDR) then sim_device.DS_DEV else 0.
 
 Definition dev_read (e : env) (d : dev) (addr : Z) (effectful : bool) : dev * option Z :=
   match d with
